@@ -26,7 +26,7 @@ def run(ctx):
     by_header = {}
     for i, row in enumerate(tab):
         by_header.setdefault(row[2], []).append(i)
-    ctx.rule = ("all 145 pinned classes x 6 pinned value assignments (boundary/random, every optional prefix) rebuilt "
+    ctx.rule = ("all 145 pinned classes x 8-10 pinned value assignments (boundary/random, every optional prefix, successful responses with empty/short/longer lists) rebuilt "
                 "on the current classes; all enum/flag members of 23 pinned types; non-trivial = assignment with >= 2 "
                 "parameters; distinct by pinned bytes")
     ctx.exhaustive = True
@@ -63,7 +63,8 @@ def run(ctx):
                 for p, (pname, pv) in zip(params, case["values"].items()):   # positional, names are free
                     if pv is not None:
                         kw[p.name] = mkpinned.unprim(p.type, pv)
-                got = cls(**kw).to_frame().hl_packet.serialize()[2:]
+                cmd = cls(**kw)
+                got = cmd.to_frame().hl_packet.serialize()[2:]
             except Exception as ex:
                 ctx.counterexample("wire-drift", inp, case["bytes"], "%s: %s" % (type(ex).__name__, ex),
                                    "a pinned value assignment can no longer be encoded")
@@ -71,6 +72,22 @@ def run(ctx):
             if got != want:
                 ctx.counterexample("wire-drift", inp, case["bytes"], got.hex(),
                                    "the bytes for a pinned command and values differ from the pinned revision")
+                continue
+            if ((v["header"] >> 8) & 0xFF) in (1, 2):
+                # the direction the host parses: the pinned bytes decode to the pinned values and encode back
+                from props import c04
+                try:
+                    back = cls.from_frame(cmd.to_frame())
+                    again = want if back._partial else back.to_frame().hl_packet.serialize()[2:]
+                    if not c04.canon_eq(cmd, back):
+                        ctx.counterexample("wire-drift-decode", inp, case["values"], " ".join(codecio.to_strings(idx, back)),
+                                           "the pinned bytes of a command decode to different values than at the pinned revision")
+                    elif again != want and back == cmd:
+                        ctx.counterexample("wire-drift-decode", inp, case["bytes"], again.hex(),
+                                           "decoding and re-encoding the pinned bytes changes them")
+                except Exception as ex:
+                    ctx.counterexample("wire-drift-decode", inp, "decodes", "%s: %s" % (type(ex).__name__, ex),
+                                       "the pinned bytes of a command can no longer be decoded")
     # enum members
     import importlib
     for key, members in pinned["enums"].items():
